@@ -10,6 +10,7 @@ import (
 	"encoding/hex"
 	"encoding/json"
 	"fmt"
+	"golang.org/x/crypto/nacl/secretbox"
 	"os"
 	"path/filepath"
 	"sort"
@@ -97,6 +98,21 @@ func (r *run) fail(prop, f string, a ...interface{}) {
 	r.viol = append(r.viol, prop+": "+fmt.Sprintf(f, a...))
 }
 
+var (
+	zkMnemonic string
+	zkIndex    uint32
+	zkErr      error
+	zkDone     bool
+)
+
+func shortKeyMnemonic() (string, uint32, error) {
+	if !zkDone {
+		zkMnemonic, zkIndex, zkErr = enum.ShortChildKeyMnemonic(Pass, 2)
+		zkDone = true
+	}
+	return zkMnemonic, zkIndex, zkErr
+}
+
 func pubOf(i int) string {
 	return []string{pubPass0, pubPass1, pubPass2}[i%3]
 }
@@ -152,6 +168,34 @@ func (r *run) apply(ev string) (bool, error) {
 		return r.insts[k]
 	}
 	switch p[0] {
+	case "createz":
+		// the wallet of a mnemonic chosen so that one of its first two addresses has a child
+		// private key with a leading zero byte (stored unpadded): enters through the mnemonic
+		// import, everything else is as for a created wallet
+		if len(r.insts) != 0 {
+			return false, nil
+		}
+		mn, idx, err := shortKeyMnemonic()
+		if err != nil {
+			return true, err
+		}
+		s, err := r.newInst("imported short-leaf-key mnemonic")
+		if err != nil {
+			return true, err
+		}
+		ws, err := s.I.W.ImportWalletWithMnemonic(&keystore.WalletParams{Mnemonic: mn, PrivatePassphrase: []byte(Pass), Remarks: "z",
+			ExternalIndex: idx + 1, AddressGapLimit: uint32(r.m.O.Gap)})
+		if err != nil {
+			return true, fmt.Errorf("import of the short-leaf-key mnemonic: %v", err)
+		}
+		r.id, r.mnem, r.bits = ws.WalletID, mn, 128
+		ref, err := enum.NewRefWallet(mn, Pass)
+		if err != nil {
+			return true, err
+		}
+		r.ref = ref
+		r.collectSecrets()
+		return true, r.makeReady(s)
 	case "create":
 		if len(r.insts) != 0 {
 			return false, nil
@@ -333,7 +377,7 @@ func (m *Model) alphabet(r *run) []string {
 		for _, b := range m.O.Bits {
 			a = append(a, fmt.Sprintf("create:%d", b))
 		}
-		return a
+		return append(a, "createz")
 	}
 	var a []string
 	for k := range r.insts {
@@ -356,7 +400,7 @@ func (m *Model) alphabet(r *run) []string {
 func (m *Model) enabled(r *run, ev string) bool {
 	p := strings.Split(ev, ":")
 	switch p[0] {
-	case "create":
+	case "create", "createz":
 		return len(r.insts) == 0
 	case "impk":
 		return r.export != "" && len(r.insts) < m.O.MaxInst
@@ -454,6 +498,18 @@ func (r *run) scan(where string, hay []byte) {
 			r.fail("C05", "%s contains the %s in clear", where, name)
 		}
 	}
+}
+
+func printableKey(b []byte) string {
+	if len(b) > 40 {
+		b = b[:40]
+	}
+	return string(bytes.Map(func(r rune) rune {
+		if r < 32 || r > 126 {
+			return '.'
+		}
+		return r
+	}, b))
 }
 
 func rawDump(i *inst.Inst) ([]byte, string) {
@@ -698,6 +754,9 @@ func (m *Model) Run(hist []string) *proto.Result {
 	for k, s := range r.insts {
 		if mn, _, err := s.I.W.GetMnemonic(r.id, Pass); err != nil || mn != r.mnem {
 			r.fail("C05", "instance %d: GetMnemonic with the right passphrase = %q, %v", k, mn, err)
+			if err == nil {
+				r.fail("C04", "instance %d (%s) reports another mnemonic than the one the wallet was created from", k, s.how)
+			}
 		}
 		if j, err := s.I.W.ExportWallet(r.id, Pass); err != nil {
 			r.fail("C05", "instance %d: ExportWallet with the right passphrase failed: %v", k, err)
@@ -709,6 +768,37 @@ func (m *Model) Run(hist []string) *proto.Result {
 	for k, s := range r.insts {
 		d, _ := rawDump(s.I)
 		r.scan(fmt.Sprintf("database of instance %d (%s)", k, s.how), d)
+		// a secret sealed under a trivial key is as good as in clear: every stored value that
+		// has the shape nonce||secretbox is opened with the all-zero key
+		var zero [32]byte
+		ldb.VerifRawIterate(s.I.Raw, func(key, v []byte) {
+			// candidates: the whole value, and every length-prefixed field inside it (records such
+			// as the account row are sequences of [u32 little-endian length][bytes])
+			cands := [][]byte{v}
+			for off := 0; off+4 <= len(v) && off < 16; off++ {
+				for p := off; p+4 <= len(v); {
+					n := int(uint32(v[p]) | uint32(v[p+1])<<8 | uint32(v[p+2])<<16 | uint32(v[p+3])<<24)
+					if n <= 0 || p+4+n > len(v) {
+						break
+					}
+					cands = append(cands, v[p+4:p+4+n])
+					p += 4 + n
+				}
+			}
+			seen := map[string]bool{}
+			for _, c := range cands {
+				if len(c) < 24+secretbox.Overhead || seen[string(c)] {
+					continue
+				}
+				seen[string(c)] = true
+				var nonce [24]byte
+				copy(nonce[:], c[:24])
+				if plain, ok := secretbox.Open(nil, c[24:], &nonce, &zero); ok {
+					r.fail("C05", "database of instance %d (%s): record %q holds a field that opens with the all-zero key (%d bytes of plaintext)", k, s.how, printableKey(key), len(plain))
+					r.scan(fmt.Sprintf("plaintext under the all-zero key in the database of instance %d", k), plain)
+				}
+			}
+		})
 	}
 	if r.export != "" {
 		r.scan("exported keystore", []byte(r.export))
